@@ -168,12 +168,38 @@ Definition add_equivalence (g : graph) (a b : nat) : graph :=
 Definition expire (g : graph) (a : nat) : graph :=
   {| wadj := upd (wadj g) a []; alive := upd (alive g) a false |}.
 
-Inductive op := AddEq (a b : nat) | Expire (a : nat).
+(** VariableImpl::unsetEquivalentTo returns whether findEquivalentVariable found an entry (after the clean). *)
+Definition unset_found (g : graph) (a b : nat) : bool :=
+  match find_equivalent (clean_expired g a) a (Some b) with Some _ => true | None => false end.
+
+(** Variable::removeEquivalence(variable1, variable2):
+      if (v1 != nullptr && v2 != nullptr) { if (v1->unsetEquivalentTo(v2)) return v2->unsetEquivalentTo(v1); }
+      return false;
+    (a failed first unset has still cleaned the list of v1; v2 is then not touched). *)
+Definition remove_equivalence (g : graph) (a b : nat) : graph :=
+  if alive g a && alive g b then
+    if unset_found g a b then unset_equivalent_to (unset_equivalent_to g a b) b a
+    else clean_expired g a
+  else g.
+
+(** Variable::removeAllEquivalences():
+      for (weak : mEquivalentVariables) { e = weak.lock(); if (e != nullptr) e->unsetEquivalentTo(this); }
+      mEquivalentVariables.clear();
+    (the loop runs over the live entries, in order; a variable never lists itself:
+     GraphProofs.step_wf keeps [irreflexive], so the vector is not modified while it is traversed). *)
+Definition remove_all_equivalences (g : graph) (a : nat) : graph :=
+  if alive g a then
+    set_wadj (fold_left (fun h e => unset_equivalent_to h e a) (eqv g a) g) a []
+  else g.
+
+Inductive op := AddEq (a b : nat) | Expire (a : nat) | RemEq (a b : nat) | RemAll (a : nat).
 
 Definition step (g : graph) (o : op) : graph :=
   match o with
   | AddEq a b => add_equivalence g a b
   | Expire a => expire g a
+  | RemEq a b => remove_equivalence g a b
+  | RemAll a => remove_all_equivalences g a
   end.
 
 Definition empty_graph : graph := {| wadj := fun _ => []; alive := fun _ => true |}.
@@ -201,3 +227,39 @@ Definition model_queries_key64 (addr : nat -> N) (fuel : nat) (g : graph) (qs : 
 (** A concrete placement used by the drivers: 16-aligned heap-like addresses, one per variable
     (any injective placement gives the same answers: GraphProofs.model_queries_correct). *)
 Definition heap_addr (v : nat) : N := (94354814632256 + 16 * N.of_nat v)%N.   (* 0x55d0b1358140 + 16 v *)
+
+(** ** Histories: edits of the graph interleaved with queries.
+
+    The library keeps no state between two queries on Variable objects, and an AnalyserModel cache
+    belongs to one AnalyserModel (a snapshot: the drivers take a fresh AnalyserModel after every
+    edit), so: an edit changes the graph and empties the cache; a question is answered on the graph
+    as it is at that moment. *)
+Inductive qkind := QIndirect      (* a->hasEquivalentVariable(b, true) *)
+                 | QDirect        (* a->hasEquivalentVariable(b, false) *)
+                 | QUtil          (* libcellml::areEquivalentVariables(a, b), utilities.cpp *)
+                 | QCached.       (* AnalyserModel::areEquivalentVariables(a, b) on the current AnalyserModel *)
+Inductive event := Edit (o : op) | Ask (k : qkind) (a b : nat).
+
+Definition hcache := cache (N * N) (option bool).
+
+Definition ask (n : nat) (g : graph) (c : hcache) (k : qkind) (a b : nat) : option bool * hcache :=
+  match k with
+  | QIndirect => (has_equivalent n g a (Some b) true, c)
+  | QDirect => (has_equivalent n g a (Some b) false, c)
+  | QUtil => (are_equivalent n g a b, c)
+  | QCached => query pair_eqb (model_key heap_addr) (are_equivalent n g) c a b
+  end.
+
+Fixpoint run_history (n : nat) (g : graph) (c : hcache) (h : list event) : list (option bool) :=
+  match h with
+  | [] => []
+  | Edit o :: t => run_history n (freeze n (step g o)) [] t
+  | Ask k a b :: t => let (r, c') := ask n g c k a b in r :: run_history n g c' t
+  end.
+
+Fixpoint final_graph (n : nat) (g : graph) (h : list event) : graph :=
+  match h with
+  | [] => g
+  | Edit o :: t => final_graph n (freeze n (step g o)) t
+  | Ask _ _ _ :: t => final_graph n g t
+  end.
